@@ -204,6 +204,11 @@ func (t *taintCtx) run(fn *ssa.Function, tparams map[int]bool) bool {
 					if isT(x.X) {
 						mark(x)
 					}
+				case *ssa.SliceToArrayPointer:
+					// (*[N]byte)(s) points into the slice's own memory
+					if isT(x.X) {
+						mark(x)
+					}
 				case *ssa.Convert:
 					if isT(x.X) && t.isSeq(x.Type()) {
 						mark(x)
@@ -518,6 +523,57 @@ func checkC13(c *Ctx, r *Report) {
 				r.ok(rule, n, what, "-", true)
 			}
 		}
+	}
+	// R13.4: not only the accessors: no method declared on a reply type or on Registers (a String()
+	// that fmt runs, a new helper) writes the payload or stores through its receiver
+	r.instance("R13.4", packetValuesImmutable(c, r, "R13.4", "packet", responseFamily(c, "packet"), nil))
+	r.floor("R13.4", 60)
+	// R13.5: extraction does not change the request it is called on either: nothing reachable from
+	// the extraction methods of BuilderRequest writes memory of the request's field list (an
+	// in-place filter on the receiver's copy of the slice header rewrites the caller's list, and
+	// the second extraction then reports different fields)
+	{
+		var xroots []*ssa.Function
+		var brT *types.Named
+		for _, fn := range roots {
+			if recv := fn.Signature.Recv(); recv != nil {
+				if tn, ok := deref(recv.Type()).(*types.Named); ok && tn.Obj().Name() == "BuilderRequest" {
+					xroots = append(xroots, fn)
+					brT = tn
+				}
+			}
+		}
+		if brT != nil {
+			srcs := map[*types.Var]bool{}
+			var listT types.Type
+			bst := brT.Underlying().(*types.Struct)
+			for i := 0; i < bst.NumFields(); i++ {
+				if sl, ok := bst.Field(i).Type().Underlying().(*types.Slice); ok {
+					if _, isStruct := sl.Elem().Underlying().(*types.Struct); isStruct {
+						srcs[bst.Field(i)] = true
+						listT = bst.Field(i).Type()
+					}
+				}
+			}
+			seq := func(t types.Type) bool {
+				_, isSlice := t.Underlying().(*types.Slice)
+				return isSlice && listT != nil && types.Identical(t.Underlying(), listT.Underlying())
+			}
+			tt := runTaintOnly(c, xroots, srcs, seq, "the request's field list")
+			r.instance("R13.5", len(xroots))
+			seenF := map[string]bool{}
+			for _, f := range tt.findings {
+				if f.rule != "R13.1" || seenF[f.sig+fnID(f.fn)] {
+					continue
+				}
+				seenF[f.sig+fnID(f.fn)] = true
+				r.fail("R13.5", fnID(f.fn), "extraction writes the field list of the request it is called on: "+f.what, c.pos(f.pos), "", f.sig)
+			}
+			if len(seenF) == 0 {
+				r.ok("R13.5", fnID(xroots[0]), fmt.Sprintf("nothing reachable from the %d extraction methods writes memory of the request's field list", len(xroots)), c.pos(xroots[0].Pos()), true)
+			}
+		}
+		r.floor("R13.5", 3)
 	}
 	// R13.3: the result reported for a field does not depend on which fields were extracted before
 	// it: each FieldValue is built afresh from (this field, the value and error just obtained for it)
